@@ -81,6 +81,7 @@ type Cond struct {
 	V    ssa.Value // the If operand
 	True bool      // edge taken: true branch
 	At   *ssa.BasicBlock
+	Idx  int // position of At on the path the condition was read from (Path.Conds)
 }
 
 // Guards returns the branch conditions that necessarily hold when target is
@@ -123,14 +124,24 @@ func (p Path) Conds() []Cond {
 		if !ok || len(b.Succs) != 2 || b.Succs[0] == b.Succs[1] {
 			continue
 		}
-		out = append(out, Cond{V: iff.Cond, True: b.Succs[0] == p[i+1], At: b})
+		out = append(out, Cond{V: iff.Cond, True: b.Succs[0] == p[i+1], At: b, Idx: i})
 	}
 	return out
 }
 
-// Pred returns the block preceding b on the path (nil if none).
+// upTo: the prefix of the path that ends with the block testing c.
+func (p Path) upTo(c Cond) Path {
+	if c.Idx >= 0 && c.Idx < len(p) && p[c.Idx] == c.At {
+		return p[:c.Idx+1]
+	}
+	return p
+}
+
+// Pred returns the block preceding the LAST occurrence of b on the path (nil
+// if none): a path may pass a loop header twice (one iteration), and a value
+// of the header is then the one of its most recent execution.
 func (p Path) Pred(b *ssa.BasicBlock) *ssa.BasicBlock {
-	for i := 1; i < len(p); i++ {
+	for i := len(p) - 1; i >= 1; i-- {
 		if p[i] == b {
 			return p[i-1]
 		}
@@ -147,12 +158,29 @@ func (p Path) Contains(b *ssa.BasicBlock) bool {
 	return false
 }
 
+// LoopUnroll: paths may pass each loop header twice.
+var LoopUnroll = true
+
 // SimplePaths enumerates the simple (no block repeated) paths from 'from' to
 // any block satisfying isTarget, up to max paths. A path ends at the first
 // target it meets. ok=false if the cap was hit.
 func SimplePaths(from *ssa.BasicBlock, isTarget func(*ssa.BasicBlock) bool, max int) (paths []Path, ok bool) {
 	ok = true
-	onPath := map[*ssa.BasicBlock]bool{}
+	// a loop header may be passed twice (zero or one iteration of every loop is
+	// explored: values assigned in a loop body reach the code behind the loop);
+	// every other block at most once
+	onPath := map[*ssa.BasicBlock]int{}
+	isHeader := map[*ssa.BasicBlock]int{} // 0 unknown 1 yes 2 no
+	header := func(b *ssa.BasicBlock) bool {
+		if v := isHeader[b]; v != 0 {
+			return v == 1
+		}
+		isHeader[b] = 2
+		if LoopUnroll && len(Latches(b)) > 0 {
+			isHeader[b] = 1
+		}
+		return isHeader[b] == 1
+	}
 	var cur Path
 	// prune: only walk into blocks from which some target is reachable
 	canReach := map[*ssa.BasicBlock]int{} // 0 unknown 1 yes 2 no
@@ -191,10 +219,10 @@ func SimplePaths(from *ssa.BasicBlock, isTarget func(*ssa.BasicBlock) bool, max 
 			return
 		}
 		cur = append(cur, b)
-		onPath[b] = true
+		onPath[b]++
 		defer func() {
 			cur = cur[:len(cur)-1]
-			onPath[b] = false
+			onPath[b]--
 		}()
 		if isTarget(b) {
 			if len(paths) >= max {
@@ -211,7 +239,7 @@ func SimplePaths(from *ssa.BasicBlock, isTarget func(*ssa.BasicBlock) bool, max 
 			if DeadEdge(b, i) {
 				continue
 			}
-			if onPath[s] || !reaches(s) {
+			if (onPath[s] > 0 && !(header(s) && onPath[s] < 2)) || !reaches(s) {
 				continue
 			}
 			walk(s)
